@@ -222,3 +222,109 @@ def run_inlinefit(prog, ctx=None):
             res.ob("%s:%s" % (f.qn, norm(show(n, f))[:60]), ok, f, n.get("l", 0),
                    "" if ok else "content is placed in %s->_val but the capacity test that guards it (line %s) reads %s->_max" % (base, near[2], ", ".join(sorted(near[1]))))
     return res
+
+
+def run_convnarrow(prog, ctx=None):
+    """CONVNARROW: in a property setter a value obtained through convert(src, K, &wide) reaches a narrower local or member only
+    inside the narrow type's range: the assignment `narrow = wide` is dominated by a range test (interval of `wide` at the
+    assignment lies inside the target type).  Narrowing first and testing the narrow value afterwards accepts every value
+    whose low bits happen to be in range."""
+    res = Result("CONVNARROW")
+    files = set(ctx.get("files", [])) if ctx else None
+    for f in funcs_of(prog, files):
+        # locals whose address is handed to a convert() call
+        conv_locals = {}
+        for b, i, e in f.elements():
+            if e.get("k") == "call" and e.get("callee") is not None:
+                c = strip(e["callee"], all_casts=True)
+                if (c.get("k") == "mem" and c.get("f") == "convert") or (callee_name(e) or "").endswith("convert"):
+                    for a in e.get("args", [])[-1:]:
+                        a = strip(a, all_casts=True)
+                        if a.get("k") == "un" and a.get("op") == "&":
+                            x = strip(a["e"], lvalue_to_rvalue=False)
+                            if x.get("k") == "ref" and "id" in x["d"] and f.T(x.get("t")).get("k") == "int":
+                                conv_locals[x["d"]["id"]] = x["d"]["n"]
+        if not conv_locals:
+            continue
+        sites = []
+        for b, i, e in f.elements():
+            for n in walk_own(e):
+                if n.get("k") == "bin" and n.get("op") == "=":
+                    r = raw_rhs(n["b"])
+                    rs = strip(r, all_casts=True)
+                    if rs.get("k") == "ref" and rs["d"].get("id") in conv_locals:
+                        LT = f.T(strip(n["a"], lvalue_to_rvalue=False).get("t"))
+                        RT = f.T(rs.get("t"))
+                        if LT.get("k") == "int" and RT.get("k") == "int" and (LT.get("sz") or 4) < (RT.get("sz") or 4):
+                            sites.append((b, i, n, rs))
+        if not sites:
+            continue
+        an = null_partitioned(prog, f)
+        for b, i, n, rs in sites:
+            v = None
+            el = f.blocks[b.id].el[i]
+            for st in an.pre_parts.get((b.id, i), {}).values():
+                x = an.ev(rs, dict(st), True, el)
+                v = x if v is None else AV(min(v.lo, x.lo), max(v.hi, x.hi), v.nan or x.nan)
+            if v is None:
+                continue
+            # the variable's address was given to convert(): the interval engine does not follow it; the guards that
+            # dominate the assignment are read directly:  if (x < A || x > B) leave;  /  if (x >= A && x <= B) { here }
+            lo, hi = v.lo, v.hi
+            dom = f.dominators()
+            for did in dom[b.id]:
+                D = f.blocks[did]
+                if did == b.id or not (D.term and D.term.get("cond") is not None and len(D.succ) == 2):
+                    continue
+                for edge, sx in enumerate(D.succ):
+                    if sx is None or sx not in dom[b.id]:
+                        continue       # this edge does not lead (exclusively) here
+                    other = D.succ[1 - edge]
+                    if other is not None and b.id in f.reachable_from(other, avoid={sx}):
+                        continue
+                    truth = edge == 0
+                    cs = strip(D.term["cond"], all_casts=True)
+                    parts = []
+
+                    def flat(c, op):
+                        c = strip(c, all_casts=True)
+                        if c.get("k") == "bin" and c.get("op") == op:
+                            flat(c["a"], op)
+                            flat(c["b"], op)
+                        else:
+                            parts.append(c)
+                    if cs.get("k") == "bin" and cs.get("op") == "||" and not truth:
+                        flat(cs, "||")
+                        neg = True
+                    elif cs.get("k") == "bin" and cs.get("op") == "&&" and truth:
+                        flat(cs, "&&")
+                        neg = False
+                    elif D.term.get("cls") != "BinaryOperator" or True:
+                        parts.append(cs)
+                        neg = not truth
+                    for c in parts:
+                        if not (c.get("k") == "bin" and c.get("op") in ("<", "<=", ">", ">=")):
+                            continue
+                        a_ = strip(c["a"], all_casts=True)
+                        k_ = cval(c["b"])
+                        op = c["op"]
+                        if not (a_.get("k") == "ref" and a_["d"].get("id") == rs["d"]["id"] and k_ is not None):
+                            continue
+                        if neg:
+                            op = {"<": ">=", "<=": ">", ">": "<=", ">=": "<"}[op]
+                        if op == "<":
+                            hi = min(hi, k_ - 1)
+                        elif op == "<=":
+                            hi = min(hi, k_)
+                        elif op == ">":
+                            lo = max(lo, k_ + 1)
+                        else:
+                            lo = max(lo, k_)
+            v = AV(lo, hi)
+            LT = f.T(strip(n["a"], lvalue_to_rvalue=False).get("t"))
+            tr = type_range(LT)
+            ok = v.within(tr.lo, tr.hi)
+            res.ob("%s:%s" % (f.qn, norm(show(n, f))[:60]), ok, f, n.get("l", f.line),
+                   "" if ok else "`%s` (%s, value %s after convert()) is narrowed to %s before any range test: values outside [%s, %s] are cut to their low bits and may pass the later check" % (
+                       rs["d"]["n"], f.tstr(rs.get("t")), v, LT.get("s"), tr.lo, tr.hi))
+    return res
